@@ -5,6 +5,7 @@ import random
 from hypothesis import strategies as st
 
 from vlib.harness import Violation
+import os
 from vlib import sigpayload as P
 
 ID = 'C12'
@@ -44,7 +45,7 @@ def run_case(case, ctx):
 def run_roundtrip(np, case, ctx):
 	from gambit.sigs.base import dump_signatures, load_signatures, AbstractSignatureArray
 	p = case['payload']
-	obj, spec, arrays, exp_ids, exp_meta = P.build(np, p)
+	obj, spec, arrays, exp_ids, exp_meta = P.build(np, p, src_path=ctx.fresh_path('.src.gs'))
 	path = ctx.fresh_path(case.get('fname', '.gs'))
 	if case.get('path_as') == 'Path':
 		import pathlib
@@ -107,9 +108,17 @@ def run_roundtrip(np, case, ctx):
 			raise Violation('eq_original', 'loaded collection does not compare equal to the original', case)
 	finally:
 		loaded.close()
+		if p.get('wrap') == 'hdf5_source':
+			try:
+				src_name = obj.group.file.filename
+				obj.close()
+				os.unlink(src_name)
+			except Exception:
+				pass
 	lens = {len(a) for a in arrays}
 	classes = ['roundtrip', f'width={spec.index_dtype}', 'dtype=index_dtype' if not p.get('dtype') else 'dtype=wider_or_signed', f'container={p["container"]}', f'ids={p["idkind"]}',
 	           f'compression={p["compression"]}', 'meta' if p['meta'] is not None else 'no_meta']
+	classes.append(f'composed={p.get("wrap") or "directly"}')
 	if case.get('rewrite'):
 		classes.append('path_rewritten')
 	if sum(len(a) for a in arrays) > 65536:
